@@ -21,7 +21,8 @@ def nlStep (E : Env) (normalize : Bool) (s : State) : State :=
     let doc := appendLine E normalize s.doc s.line linebuf
     let obuf := if linebuf ≠ [] then [] else s.obuf
     let doc := if normalize then doc else { doc with toks := doc.toks ++ [{ word := [nl], line := s.line }] }
-    { s with obuf := obuf, linebuf := [], line := s.line + 1, doc := doc }
+    { s with obuf := obuf, linebuf := [], deferredWord := false,
+             line := s.line + 1 + (if s.deferredWord then 1 else 0), doc := doc }
 
 /-- the state after flushing the word in progress on a space (before the rune is re-read) -/
 def spaceFlush (E : Env) (normalize : Bool) (s : State) : State :=
@@ -265,7 +266,8 @@ theorem nlStep_lift (E : Env) (n : Bool) (d : Doc) (k : Nat) (s : State) :
   have hl : (lift d k s).linebuf = s.linebuf := rfl
   have hli : (lift d k s).line = s.line + k := rfl
   have hd : (lift d k s).doc = appendDoc d (shiftDoc k s.doc) := rfl
-  simp only [ho, hl, hli, hd]
+  have hdw : (lift d k s).deferredWord = s.deferredWord := rfl
+  simp only [ho, hl, hli, hd, hdw]
   by_cases h : s.obuf ≠ [] ∧ s.obuf.getLast? = some hyphen
   · rw [if_pos h, if_pos h]; rfl
   · rw [if_neg h, if_neg h]
